@@ -52,12 +52,14 @@ class Env:
         self.urandom_calls = 0
         self.urandom_log = None  # optional list of (n, bytes)
         self.fixed_utcnow = None
+        self.clock_tick = 0.0    # wall-clock time that passes between two consecutive clock reads
         self.procs = 0
 
     def utcnow(self):
         if self.fixed_utcnow is not None:
             return self.fixed_utcnow
         now = CTX.s.now if CTX.s is not None else self.now
+        self.clock_offset += self.clock_tick
         return self.epoch + _dt.timedelta(seconds=now + self.clock_offset)
 
 
